@@ -10,7 +10,7 @@ from ..core import Failure
 from ..model import MP, GQ, cval, simplify, mp_close
 
 ID = "C02"
-BUDGET = {"quick": 900, "thorough": 2500}
+BUDGET = {"quick": 900, "thorough": 5000}
 TECHNIQUE = 'Hypothesis-generated (polynomial, argument assignment) pairs vs exact model evaluation/substitution; staged-evaluation and spelling metamorphic relations'
 LEVEL_TEXT = 'Full, partial, positional/keyword/None assignments with Python numbers, numpy scalars of every width, broadcasting arrays and polynomial arguments are evaluated in the exact model and compared (shape rule, type rule, values); error cases must raise TypeError.'
 FUZZ_RUNS = {"thorough": 3000}  # atheris/libFuzzer campaign over the same strategy and oracle
